@@ -31,7 +31,9 @@ EXPLANATION = (
     "distinct boundary values) and compared with 2*s*N_p/(p*N_s); metamorphic relations (k-fold, gene-only scaling) and "
     "the self-profile identity (profile written by the lifted tail of Profile.get_sam_profile_data from the same table "
     "-> exactly 2.0) are evaluated on the lifted fragments. Sibling agreement table of the three depth counters per "
-    "CIGAR op. Guard dominance for the zero guards. Folded consumer expression in estimate_cn."
+    "CIGAR op and per SAM flag class. Guard dominance for the zero guards. estimate_cn folded whole for the consumer. A sparse sample "
+    "(regions of total depth 1 and 0) with the neutral region on another chromosome at the coordinates of a gene region: per-chromosome sums "
+    "in the written profile and exactly 2.0 against it."
 )
 ASSUMPTIONS = ["Coverage.total is the depth accessor (folded from source for the sample tables)",
                "pysam read attributes as modelled by the read stub (get_blocks = aligned blocks without deletions)"]
